@@ -60,6 +60,7 @@ Definition error_eqb (a b : error) : bool :=
 Inductive wentry :=
 | WVal (v : pv)
 | WEcho (arg : str)                 (* returns the coerced argument of that (python) name, None if absent *)
+| WEchoAll                          (* returns dict(kwargs): every coerced argument it received, in order *)
 | WErr (msg : str) (ext : pv)
 | WExn
 | WDefault.                         (* behaves as default_resolver *)
@@ -76,6 +77,7 @@ Definition world_of_table (t : list (path * wentry)) : world_t :=
     | None | Some WDefault => RDefault
     | Some (WVal v) => RVal v
     | Some (WEcho a) => RVal (match alookup a args with Some v => v | None => PNone end)
+    | Some WEchoAll => RVal (PDict args)
     | Some (WErr m x) => RErr m x
     | Some WExn => RExn
     end.
